@@ -86,6 +86,11 @@ def plan(tier, seed):
         for k in kinds:
             specs.append({"name": f"{gen.SHORT[s]}-{k}", "scheme": s, "kind": k, "primitive_monitors": False,
                           "budget_s": 25 if tier == "quick" else 500, "reps": 5 if tier == "quick" else 40})
+    # an ACCEPTED (default) configuration on one long-lived scheme object: index after index, each dropped before the
+    # next is built, one key and then a new key every time - every search correct
+    for j in range(3):
+        specs.append({"name": f"dropped-index-generations-{j}", "kind": "generations", "schemes": gen.SCHEMES[j::3],
+                      "scheme": gen.SCHEMES[j], "rounds": 1 if tier == "quick" else 8, "generations": 60, "budget_s": 120})
     return specs
 
 
@@ -361,6 +366,11 @@ def run_config(scheme, label, field, vclass, cfg, acc, rng, deleted=None):
 
 
 def run_shard(spec, acc, ctx):
+    if spec.get("kind") == "generations":
+        from props import _search_engine as eng
+        eng.run_generations(spec, acc, ctx, "both", sig_prefix="silent-")
+        acc.count("cases", acc.counters.get("generations.indexes", 0))
+        return
     scheme = spec["scheme"]
     rng = ctx.rng
     f = FIELDS[scheme]
